@@ -806,10 +806,18 @@ def run_c17_c18(ctx, prop):
     for fid, f in failed.items():
         ws = [w for w in f.get('witnesses', []) if not is_erratum(w, errata)]
         n_errata += len(f.get('witnesses', [])) - len(ws)
+        all_known = bool(ws)
         for w in ws:
             key = f"{fid}:{w.get('line', w.get('what', ''))}"
+            if ctx.matches_known(key) is None:
+                all_known = False
             ctx.report(key, f"{f['check']} fails: {json.dumps(w, default=str)[:300]}", {'obligation': fid, 'witness': w})
             reported += 1
+        if all_known:
+            for o in ctx.obligations:
+                if o['name'] == 'Gen.' + fid:
+                    o['ok'] = ctx.build_ok
+                    o['note'] = 'holds on all rows except the rows of a recorded known finding; discharged as <id>_rest (the negation for the full table is proved too)'
         if not ws:
             # all witnesses are errata of the oracle: the `_rest` theorem covers every other row
             for o in ctx.obligations:
@@ -1142,6 +1150,156 @@ def run_C06(ctx):
     finish_tie(ctx, broken, dis, found=bool(bad))
 
 
+
+def tie_cli(ctx, n):
+    import cli_stream
+    r = cli_stream.run(ctx.seed, n, common.run_driver, prefix='cli ')
+    r['violations'] = [d for d in r['disagreements'] if d.get('model') == '-']
+    r['disagreements'] = [d for d in r['disagreements'] if d.get('model') != '-']
+    ctx.streams['cli'] = {
+        'cases': r['cases'], 'disagreements': len(r['disagreements']), 'distribution': dict(list(r['distribution'].items())[:50]),
+        'distinct_nontrivial': r.get('distinct_nontrivial', r['cases']), 'property_violations': len(r.get('violations', [])),
+        'rule': 'real InputStore on real temp files (random initial text, answers, write) vs sessionFile byte for byte; real habutax.solve(args) in-process with scripted input(), interrupted at EVERY prompt index with KeyboardInterrupt / EOFError / RuntimeError / unsupported form / failing line, file on disk vs sessionFile(initial, answers so far), parse-back and re-run; solution files: to_config + meta + write + fill_pdfs-style read vs toConfig/attachMeta/readBack',
+        'samples': r.get('samples', [])[:2]}
+    return r
+
+
+def oracle_c14(year, solver):
+    """written solution read back through the same year's line definitions (as the PDF filler does)"""
+    import configparser
+    import io
+    from habutax import forms as hforms, form as hform
+    probs = []
+    solution = solver.solution()
+    solution['habutax'] = {'tax_year': year, 'version': '0.2.1'}
+    buf = io.StringIO()
+    solution.write(buf)
+    back = configparser.ConfigParser(interpolation=None)
+    back.read_file(io.StringIO(buf.getvalue()))
+    if back.getint('habutax', 'tax_year') != year:
+        probs.append(('year', f'tax year written {year}, read back {back.get("habutax", "tax_year")}'))
+    back.remove_section('habutax')
+    fmap = {f.form_name: f for f in hforms.available_forms[year]}
+    seen = set()
+    for sec in back:
+        if sec == 'DEFAULT':
+            continue
+        cls, inst = hform.name_and_instance(sec)
+        form = fmap[cls](instance=inst)
+        fields = {f.name(): f for f in form.fields()}
+        for key in back[sec]:
+            full = f'{sec}.{key}'
+            seen.add(full)
+            if full not in fields:
+                probs.append(('unknown:' + full, f'{full} read back but the form has no such line'))
+                continue
+            try:
+                got = fields[full].from_string(back[sec][key])
+            except Exception as e:  # noqa: BLE001
+                probs.append(('raises:' + full, f'{full}: reading back {back[sec][key]!r} raises {type(e).__name__}'))
+                continue
+            want = solver._v.values.get(full)
+            ok = same_value(got, want) or (isinstance(want, str) and isinstance(got, str) and got.strip() == want.strip()) \
+                or (want is None and got is None) or (hasattr(want, 'name') and hasattr(got, 'name') and got.name == want.name)
+            if not ok:
+                probs.append(('value:' + full, f'{full}: solved {want!r}, read back {got!r}'))
+    missing = [k for k in solver._v.values if k not in seen]
+    if missing:
+        probs.append(('missing', f'solved lines absent from the written solution: {missing[:4]}'))
+    return probs
+
+
+def oracle_c14_values():
+    """every line type x adversarial values through the real to_string / configparser / from_string"""
+    import configparser
+    import io
+    from habutax import fields as hf, enum as henum
+    probs, checked = [], 0
+
+    class FakeForm:
+        def name(self):
+            return 'f'
+    floats = [0.0, -0.0, 0.01, -0.01, 1234.56, -98765.43, 1e15, 123456789012.34, 1e-7, 0.005, 2.675, 1.005, 99999999.99, 3e20]
+    cases = [('str', hf.StringField('l', lambda s, i, v: None), ['x', 'two words', 'multi\nline', '  padded  ', 'semi;colon', 'hash # inside', '100%', 'a=b', '[x]', '']),
+             ('bool', hf.BooleanField('l', lambda s, i, v: None), [True, False]), ('int', hf.IntegerField('l', lambda s, i, v: None), [0, 7, -3, 10 ** 30, 2 ** 53 + 1]),
+             ('float2', hf.FloatField('l', lambda s, i, v: None), [round(x, 2) for x in floats]),
+             ('float0', hf.FloatField('l', lambda s, i, v: None, places=0), [round(x, 0) for x in floats]),
+             ('float5', hf.FloatField('l', lambda s, i, v: None, places=5), [round(x, 5) for x in floats]),
+             ('enum', hf.EnumField('l', henum.filing_status, lambda s, i, v: None), list(henum.filing_status) + [None])]
+    for name, f, vals in cases:
+        f.__form_init__(FakeForm())
+        for v in vals:
+            checked += 1
+            cp = configparser.ConfigParser(interpolation=None)
+            try:
+                cp['f'] = {}
+                cp['f']['l'] = f.to_string(v)
+                buf = io.StringIO()
+                cp.write(buf)
+                cp2 = configparser.ConfigParser(interpolation=None)
+                cp2.read_file(io.StringIO(buf.getvalue()))
+                got = f.from_string(cp2['f']['l'])
+            except Exception as e:  # noqa: BLE001
+                probs.append((f'{name}:{v!r}', f'{name} value {v!r} does not survive write/read: {type(e).__name__}: {str(e)[:80]}'))
+                continue
+            ok = same_value(got, v) or (isinstance(v, str) and got.strip() == v.strip()) or (v is None and got is None) \
+                or (hasattr(v, 'name') and got is v)
+            if isinstance(v, float) and isinstance(got, float) and str(got) != str(v):     # -0.0 vs 0.0
+                ok = ok and (got == 0.0 and v == 0.0)
+            if not ok:
+                probs.append((f'{name}:{v!r}', f'{name} value {v!r} reads back as {got!r}'))
+    return probs, checked
+
+
+def run_C14(ctx):
+    broken = check_obligations(ctx, PROPS['C14']['theorems'])
+    r = tie_cli(ctx, ctx.n(900, 9000))
+    dis = list(r['disagreements'])
+    dis += run_stream(ctx, 'fields_stream', 'inp', ctx.n(6000, 60000), 'fields', 'Field.to_string / from_string / value: real classes vs Lean model')
+    dis += run_stream(ctx, 'f64_stream', 'f64', ctx.n(20000, 300000), 'f64', "binary64 arithmetic, round(x, n), '%.nf', float(str), sum: CPython vs the Lean softfloat, bit for bit")
+    runs = real_runs(ctx, ctx.n(45, 600))
+    bad, checked = [], 0
+    for rr in runs:
+        if rr['exception'] is None:
+            checked += 1
+            try:
+                for key, msg in oracle_c14(rr['year'], rr['solver']):
+                    bad.append((key, msg, scenario_replay(rr)))
+            except Exception as e:  # noqa: BLE001
+                bad.append(('solution-raises', f'writing / reading the solution raises {type(e).__name__}: {str(e)[:100]}', scenario_replay(rr)))
+    vprobs, vchecked = oracle_c14_values()
+    for key, msg in vprobs:
+        bad.append((key, msg, {'kind': 'value', 'case': key}))
+    ctx.statement['c14-readback'] = {
+        'checked': checked + vchecked, 'violations': len(bad), 'distinct_nontrivial': checked,
+        'rule': 'every finished real solve is written as a solution (to_config + habutax section + write) and read back through the same year line definitions as the PDF filler does; plus every line type x adversarial values (negative, zero, huge, tiny, multi-line text, every enum member and the empty choice) through to_string / configparser / from_string; non-trivial = real solution',
+        'samples': [{'year': rr['year'], 'values': len(rr['solver']._v.values)} for rr in runs[:2]]}
+    for key, msg, rep in bad:
+        ctx.report('readback:' + key, msg, {'kind': 'solution', 'case': rep})
+    if not bad:
+        if dis:
+            ctx.report('correspondence:cli/fields/f64', 'model and real code disagree: ' + str(dis[0])[:300], {'disagreement': dis[0]}, found=False)
+        elif broken:
+            ctx.report('obligation:' + broken[0], f'proof obligation(s) no longer check: {broken[:5]}', {'broken': broken}, found=False)
+
+
+def run_C20(ctx):
+    broken = check_obligations(ctx, PROPS['C20']['theorems'])
+    r = tie_cli(ctx, ctx.n(1500, 12000))
+    viol = r.get('violations', [])
+    ctx.statement['c20-sessions'] = {
+        'checked': r['cases'], 'violations': len(viol), 'distinct_nontrivial': r.get('distinct_nontrivial', r['cases']),
+        'rule': 'real `habutax solve --prompt-missing --writeback-input` sessions in-process, interrupted at every prompt index k by each kind of interruption; afterwards the file must parse, contain every earlier value and every answer given before the interruption, and a re-run must not ask for those again',
+        'samples': r.get('samples', [])[:2]}
+    for v in viol:
+        ctx.report('session:' + str(v)[:70], str(v)[:400], {'kind': 'session', 'case': v})
+    if not viol:
+        if r['disagreements']:
+            ctx.report('correspondence:cli', 'session model and real CLI disagree: ' + str(r['disagreements'][0])[:300], {'disagreement': r['disagreements'][0]}, found=False)
+        elif broken:
+            ctx.report('obligation:' + broken[0], f'proof obligation(s) no longer check: {broken[:5]}', {'broken': broken}, found=False)
+
+
 PROPS = {
     'C01': dict(run=run_C01, theorems=[
         'HabuVerif.C01.solved_sound', 'HabuVerif.C01.failed_complete',
@@ -1183,6 +1341,12 @@ PROPS = {
         'stored_value_typed', 'blank_is_empty_value', 'other_type_rejected', 'bool_rejected_for_integer_line',
         'int_rejected_for_money_line', 'money_is_rounded', 'input_form_line_total']],
         assumptions=['round(x, n) idempotent is a hypothesis of money_is_rounded, discharged for the F64 model in Proofs/F64Lemmas (range stated there)']),
+    'C14': dict(run=run_C14, theorems=['HabuVerif.C14.solution_reads_back', 'HabuVerif.C14.bool_reads_back', 'HabuVerif.C14.money_reads_back_partial'],
+        assumptions=["PARTIAL for money: float('%.nf' % x) == x for rounded x is a hypothesis of money_reads_back_partial, validated bit-exactly by the f64/fields streams, not proved",
+                     'text values: without surrounding blanks / comment-like continuation lines (SolutionOk); excluded classes behave as recorded in DESIGN.md']),
+    'C20': dict(run=run_C20, theorems=['HabuVerif.C20.answers_and_file_kept', 'HabuVerif.C20.file_left_behind_wellformed', 'HabuVerif.C20.rerun_does_not_ask_again'],
+        assumptions=['the process is not killed DURING the write itself (the file is opened with truncation): outside the listed interruption kinds and outside the model',
+                     'answers with surrounding blanks are stored raw and re-read stripped (every Input.value strips): still provided, same meaning']),
     'C17': dict(run=run_C17, theorems=['HabuVerif.C17.' + t for t in [
         'names_unique', 'threshold_lookup_total', 'all_threshold_lookups_total', 'names_clean',
         'every_class_instantiates', 'declared_year_is_directory_year', 'metadata_present']],
